@@ -130,10 +130,10 @@ func vC14Status(a *asset, repID string, cycle int, reps []string) {
 // ---- several simultaneous patterns: the first pattern (in list order) that hits decides, each pattern on its own cycle ----
 
 func vH_C14_status2_testpic2s_c10_c60() { vC14Status2(vAsset_testpic_2s(), "V300", 10, 60) }
-func vH_C14_status2_testpic2s_c7_c30() { vC14Status2(vAsset_testpic_2s(), "V300", 7, 30) }
-func vH_C14_status2_testpic2s_c30_c7() { vC14Status2(vAsset_testpic_2s(), "V300", 30, 7) }
-func vH_C14_status2_audio_c10_c60()    { vC14Status2(vAsset_testpic_2s(), "A48", 10, 60) }
-func vH_C14_status2_alt_c10_c60()      { vC14Status2(vAsset_testpic_alt_seg_dur_stl(), "V300", 10, 60) }
+func vH_C14_status2_testpic2s_c7_c30()  { vC14Status2(vAsset_testpic_2s(), "V300", 7, 30) }
+func vH_C14_status2_testpic2s_c30_c7()  { vC14Status2(vAsset_testpic_2s(), "V300", 30, 7) }
+func vH_C14_status2_audio_c10_c60()     { vC14Status2(vAsset_testpic_2s(), "A48", 10, 60) }
+func vH_C14_status2_alt_c10_c60()       { vC14Status2(vAsset_testpic_alt_seg_dur_stl(), "V300", 10, 60) }
 
 // vC14Hit: segment n is the rsq-th (0-based) of the segments of ref that start in its cycle of `cycle` seconds.
 func vC14Hit(a *asset, ref *RepData, n, cycle, rsq int) bool {
